@@ -287,7 +287,7 @@ func (g *gen) genOp(k string) Op {
 		if g.slots == 0 {
 			return g.genOp("hold")
 		}
-		return Op{K: "collect", Slot: r.Intn(g.slots), Mode: []string{"collect", "collect", "assign", "reverse", "one"}[r.Intn(5)]}
+		return Op{K: "collect", Slot: r.Intn(g.slots), Mode: []string{"collect", "collect", "assign", "reverse", "one", "delete"}[r.Intn(6)]}
 	case "reopen":
 		return Op{K: "reopen", Flag: r.Bool()}
 	case "abandon":
